@@ -26,7 +26,9 @@ ASSUMPTIONS = ["equivalence is defined on the truth model: the same physical err
 REQUIRED_CLASSES = ["tr=" + t for t in TRANSFORMS]
 
 ROT = [1e-4, 199.9999, 200.0, 399.9999, 100.0, 37.123456789, 0.5, 300.0]
-NAMES = ["Ž1", "bod č.7", "αβγ", "点A", "P_01", "x-y", "Q.2", "Ünï", "a b", "9", "10", "007", "Z'", "é", "ß", "Ω9"]
+NAMES = ["Ž1", "bod č.7", "αβγ", "点A", "P_01", "x-y", "Q.2", "Ünï", "a b", "9", "10", "007", "Z'", "é", "ß", "Ω9",
+         # spellings that a numeric comparison would merge
+         "7", "07", "+7", "7.0", "0", "00", "1e1", "010", "99999999999999999999", "99999999999999999998"]
 
 
 @st.composite
